@@ -269,6 +269,9 @@ func init() {
 			return fmt.Errorf("cannot start node: %v", err)
 		}
 		defer func() { node.in.Close(); node.cmd.Wait() }()
+		if err := c09CssStages(c); err != nil {
+			return err
+		}
 		var pool [][]byte
 		for _, d := range docs {
 			if len(d.data) < 200000 {
